@@ -27,8 +27,13 @@ Definition ostep_eqb (a b : ostep) : bool :=
 
 Definition model_obs (dv : deviations) (c : rcase) : list ostep := map ostep_of (run dv (rc_steps c)).
 
+(* the conformant Model's own run of the same history satisfies the Spec: ties the Model/Spec pair (the theorems are
+   about the Model-level sets of Life/ReloadPlanSpec.v, the Spec evaluated on observations is Life/ReloadSpec.v) *)
+Definition rcase_conformant_ok (c : rcase) : bool :=
+  rcase_spec_ok {| rc_steps := rc_steps c; rc_obs := model_obs all_off c |}.
+
 Definition rcase_model_ok (dv : deviations) (c : rcase) : bool :=
-  forallb r_fuel (run dv (rc_steps c)) && list_eqb ostep_eqb (model_obs dv c) (rc_obs c).
+  forallb r_fuel (run dv (rc_steps c)) && list_eqb ostep_eqb (model_obs dv c) (rc_obs c) && rcase_conformant_ok c.
 
 (* a switch is active on a case iff turning it off (the others as measured) changes what the Model predicts *)
 Definition dv_without (dv : deviations) (k : nat) : deviations :=
@@ -40,7 +45,7 @@ Definition dv_without (dv : deviations) (k : nat) : deviations :=
 Definition rcase_attrib (dv : deviations) (c : rcase) : list nat :=
   let base := model_obs dv c in
   (* only meaningful when the conformant Model satisfies the Spec on its own run of this history *)
-  if negb (rcase_spec_ok {| rc_steps := rc_steps c; rc_obs := model_obs all_off c |}) then [] else
+  if negb (rcase_conformant_ok c) then [] else
   filter (fun k => negb (list_eqb ostep_eqb (model_obs (dv_without dv k) c) base)) [100; 101; 102; 103]%nat.
 
 (* printed into replays: first step where Model and implementation differ, with both sides *)
